@@ -372,8 +372,8 @@ static Vals smEnableVals(const SmEnable &o) { return { vB(o.resume), vN(o.max) }
 static SmEnable smEnableOf(const Vals &v) { SmEnable o; o.resume = v.at(0).b; o.max = v.at(1).n; return o; }
 static Vals smEnabledVals(const SmEnabled &o) { return { vB(o.resume), vS(o.id), vN(o.max), vS(o.location) }; }
 static SmEnabled smEnabledOf(const Vals &v) { SmEnabled o; o.resume = v.at(0).b; o.id = v.at(1).s; o.max = v.at(2).n; o.location = v.at(3).s; return o; }
-static Vals smFailedVals(const SmFailed &o) { return { o.error ? vO(true, quint64(int(*o.error))) : vO(false) }; }
-static SmFailed smFailedOf(const Vals &v) { SmFailed o; if (v.at(0).has) o.error = QXmppStanza::Error::Condition(int(v.at(0).n)); return o; }
+static Vals smFailedVals(const SmFailed &o) { return { o.error ? vO(true, quint64(int(*o.error))) : vO(false), o.h ? vO(true, *o.h) : vO(false) }; }
+static SmFailed smFailedOf(const Vals &v) { SmFailed o; if (v.at(0).has) o.error = QXmppStanza::Error::Condition(int(v.at(0).n)); if (v.at(1).has) o.h = quint32(v.at(1).n); return o; }
 static Vals strList(const std::vector<QString> &l) { Vals items; for (auto &s : l) items.push_back(vR({ vS(s) })); return items; }
 static std::vector<QString> strListOf(const Val &l) { std::vector<QString> o; for (auto &it : l.items) o.push_back(it.items.at(0).s); return o; }
 static Vals bind2FeatureVals(const Bind2Feature &o) { return { vR({ vL(strList(o.features)) }) }; }
@@ -416,7 +416,7 @@ static std::vector<ClassEntry> classTable()
     t.push_back(nonza<SmResumed>("SmResumed", { "h", "previd" },
         [](const SmResumed &o) { return Vals { vN(o.h), vS(o.previd) }; },
         [](const Vals &v) { SmResumed o; o.h = quint32(v.at(0).n); o.previd = v.at(1).s; return o; }));
-    t.push_back(nonza<SmFailed>("SmFailed", { "error" }, smFailedVals, smFailedOf));
+    t.push_back(nonza<SmFailed>("SmFailed", { "error", "h" }, smFailedVals, smFailedOf));
     t.push_back(nonza<SmAck>("SmAck", { "seqNo" },
         [](const SmAck &o) { return Vals { vN(o.seqNo) }; },
         [](const Vals &v) { SmAck o; o.seqNo = quint32(v.at(0).n); return o; }));
@@ -1286,7 +1286,7 @@ int main(int argc, char **argv)
             if (!same(it.accuracy(), back.accuracy())) fail("C01:field-mismatch:QXmppGeolocItem:accuracy", rep); else oraclePass()++;
             stat("geoloc_double_roundtrips");
         };
-        roundtrip(48.123456789, 11.987654321, 12.3456789, "lat=48.123456789 lon=11.987654321 accuracy=12.3456789");   // witness of the recorded finding
+        roundtrip(48.123456789, 11.987654321, 12.3456789, "lat=48.123456789 lon=11.987654321 accuracy=12.3456789");   // 6 significant digits only before /repo 9e5c1b3 (fixed findings C01:field-mismatch:QXmppGeolocItem:*)
         roundtrip(48.5, -11.25, 3, "lat=48.5 lon=-11.25 accuracy=3");
         for (int i = 0; i < (thorough ? 2000 : 200); i++) {
             double lat = (double(rng.below(1u << 30)) / double(1u << 30)) * 180.0 - 90.0, lon = (double(rng.below(1u << 30)) / double(1u << 30)) * 360.0 - 180.0;
